@@ -50,6 +50,58 @@ func (ex *Executable) Validate(root *Root) (errs []error) {
 	for _, f := range ex.Fragments {
 		errs = append(errs, f.Validate(root)...)
 	}
+	errs = append(errs, ex.validateFragCycles()...)
+	return
+}
+
+// validateFragCycles makes sure fragment spreads do not form a cycle. A
+// fragment that, directly or through other fragments, spreads itself can
+// never be expanded and resolving it would recurse until the stack is used up.
+func (ex *Executable) validateFragCycles() (errs []error) {
+	const (
+		visiting = 1
+		done     = 2
+	)
+	state := map[*Fragment]int{}
+	var walk func(sels []Selection)
+	var visit func(f *Fragment)
+	walk = func(sels []Selection) {
+		for _, sel := range sels {
+			switch ts := sel.(type) {
+			case *Field:
+				walk(ts.Sels)
+			case *Inline:
+				walk(ts.Sels)
+			case *FragRef:
+				if ts.Fragment == nil {
+					continue
+				}
+				switch state[ts.Fragment] {
+				case visiting:
+					errs = append(errs, valError(ts.line, ts.col, "fragment %s is part of a fragment spread cycle", ts.Fragment.Name))
+				case done:
+					// already checked
+				default:
+					visit(ts.Fragment)
+				}
+			}
+		}
+	}
+	visit = func(f *Fragment) {
+		state[f] = visiting
+		walk(f.Sels)
+		state[f] = done
+	}
+	names := make([]string, 0, len(ex.Fragments))
+	for name := range ex.Fragments {
+		names = append(names, name)
+	}
+	sort.Strings(names)
+	for _, name := range names {
+		if f := ex.Fragments[name]; state[f] == 0 {
+			visit(f)
+		}
+	}
 	return
 }
 
